@@ -5,10 +5,25 @@
 mod gen;
 mod gen_dispatch;
 mod hand;
+mod hand_samplers;
 mod proto;
 mod rng;
 mod search;
 mod search_mods;
+mod search_c20;
+mod search_c12;
+mod search_c11;
+mod search_c06;
+mod search_c18;
+mod search_c17;
+mod search_c16;
+mod search_c08;
+mod search_c05;
+mod search_c04;
+mod search_c03;
+mod search_c15;
+mod search_c14;
+mod search_c13;
 
 use proto::*;
 use std::io::{BufRead, Write};
